@@ -216,9 +216,11 @@ func (x *envExec) payload(n int) []byte {
 	sizes := []int{0, 1, 15, 16, 17, 33, 64, 257}
 	sz := sizes[n%len(sizes)]
 	b := make([]byte, 0, sz+12)
-	b = append(b, []byte(fmt.Sprintf("pl#%06d:", n))...)
-	for i := 0; i < sz; i++ {
-		b = append(b, byte(n*31+i*7+1))
+	if n != 5 { // payload 5 is the empty payload
+		b = append(b, []byte(fmt.Sprintf("pl#%06d:", n))...)
+		for i := 0; i < sz; i++ {
+			b = append(b, byte(n*31+i*7+1))
+		}
 	}
 	x.payloads[n] = b
 	x.cl.AddPayload(b, n)
